@@ -926,9 +926,20 @@ func (ex *Executor) checkCallReqs(st *State, fr *Frame, res []Val) {
 		env.bindResults(fr.fn, res)
 		var matches []*Event
 		for _, e := range st.events {
-			if e.Kind == "call" && nameMatches(e.Fn, cr.Pat.Fn) {
+			if e.Kind == "call" && nameMatches(e.Fn, cr.Pat.Fn) && constArgsMatch(cr.Pat, e) {
 				matches = append(matches, e)
 			}
+		}
+		if cr.Forbid {
+			cond, err := ex.evalSpec(cr.When, env)
+			if err != nil {
+				ex.errf("%s: exit forbid %s: %v", ex.unitKey, cr.Name, err)
+				continue
+			}
+			if len(matches) > 0 {
+				ex.addObl(st, "forbid", cr.Name, Not(cond.T), fmt.Sprintf("%s is called on this path, so the condition of `%s` must not hold here", cr.Pat.Fn, cr.Text), cr.Tags)
+			}
+			continue
 		}
 		cond, err := ex.evalSpec(cr.When, env)
 		if err != nil {
@@ -1037,3 +1048,32 @@ func (ex *Executor) checkFrame(st *State, fr *Frame, old map[string]*Term, oldAl
 func (st *State) resultVals() []Val { return st.resultsForRows }
 
 var _ = strings.TrimSpace
+
+// constArgsMatch: numeric / string literal arguments of the pattern select the events they talk about
+// (call WriteRune(_, 115) is about the calls that write 's')
+func constArgsMatch(p *EvPat, e *Event) bool {
+	if p.Args == nil || len(p.Args) != len(e.Args) {
+		return true
+	}
+	for k, a := range p.Args {
+		switch a.Kind {
+		case "num":
+			t := e.Args[k].T
+			if t == nil || !t.IsNum() {
+				return false
+			}
+			if t.Num.String() != a.Num {
+				return false
+			}
+		case "str":
+			t := e.Args[k].T
+			if t == nil {
+				return false
+			}
+			if lit, ok := litOf(t); !ok || lit != a.Name {
+				return false
+			}
+		}
+	}
+	return true
+}
